@@ -83,6 +83,16 @@ def extra(run):
     run.extra_cov["mutated_input_decoding"] = {"cases": n, "inputs": sum(st.values()), "classes": dict(st),
                                                "relation": "model accepts => implementation accepts with the same value"}
     run.streams_run.append({"stream": "schemamal", "seed": run.seed, "cases": n})
+    # hypothesis of C06_chain_iso_partial evaluated on the corpus: is each artefact canonical for its schema?
+    cs = next((x for x in SPEC["streams"] if x["name"] == "chain"), None)
+    if cs:
+        rc, cops, err = core.sh([core.PVH, "gen", "chain", "--seed", str(run.seed), "--cases", str(cs.get(run.tier, cs["quick"])), "--tier", run.tier], timeout=1800)
+        if rc == 0 and cops:
+            rc2, out, err2 = core.sh([core.DRIVER, "chaincanon"], inp=cops, timeout=7200)
+            cc = collections.Counter(l for _, ls in core.parse_blocks(out) for l in ls)
+            run.extra_cov["chain_canonical"] = {"artefacts": sum(cc.values()), "classes": dict(cc),
+                                                "meaning": "`ok canonical` = the artefact decodes and satisfies `canon` (Model/SchemaCanon.lean), so "
+                                                           "C06_chain_iso_partial proves that the model re-encodes it to the same item"}
 
 
 SPEC = {
@@ -93,7 +103,8 @@ SPEC = {
     "lean_modules": ["PallasVerif.Props.C06"],
     "required_theorems": ["schema_roundtrip", "schema_roundtrip_exact", "C06_roundtrip_partial", "C06_roundtrip_exact_partial",
                           "translator_complete", "table_ok", "env_valid", "keepraw_reencodes", "keepraw_iso_bytes",
-                          "vec_keepraw_reencodes", "vec_never_indefinite", "block_shapes", "C06_block_iso_partial"],
+                          "vec_keepraw_reencodes", "vec_never_indefinite", "block_shapes", "C06_block_iso_partial",
+                          "customs_iso", "C06_chain_iso_partial", "C06_chain_iso_bytes_partial"],
     "translators": [translate_derive.translate],
     "streams": [{"name": "schema", "quick": 1120, "thorough": 56000},
                 {"name": "chain", "quick": 20, "thorough": 2000, "timeout": 7200}],
